@@ -45,7 +45,7 @@ def vc_addsub(H, which):
                 ctx.oblige('loop iterates over y.items()', False, 'inv')
                 raise PathEnd('iterable shape')
             if not isinstance(vals, FunDict):
-                ctx.oblige('inv-init: vals is a dict keyed by blade', False, 'inv')
+                raise OutOfSubset('inv-init: vals is a dict keyed by blade' + ' -- shape not recognised, contract does not apply')
                 raise PathEnd('vals shape')
             kk = SKey.fresh(ctx.fresh('k0'), 0, (1 << W) - 1)
             ctx.assume(alg.valid_key(kk))
@@ -63,7 +63,7 @@ def vc_addsub(H, which):
             k, v = it.get(n)
             vals = env.lookup('vals')
             if not isinstance(vals, FunDict):
-                ctx.oblige('inv: vals is still the dict', False, 'inv')
+                raise OutOfSubset('inv: vals is still the dict' + ' -- shape not recognised, contract does not apply')
                 return
             kk = SKey.fresh(ctx.fresh('kk'), 0, (1 << W) - 1)
             ctx.assume(alg.valid_key(kk))
@@ -81,7 +81,7 @@ def vc_addsub(H, which):
         clo = H.closure(interp, fuc)
         r = clo(x, y)
         if not isinstance(r, FunDict):
-            ctx.oblige('post: returns the dict of combined coefficients', False)
+            raise OutOfSubset('post: returns the dict of combined coefficients' + ' -- shape not recognised, contract does not apply')
             return r
         kk = SKey.fresh(ctx.fresh('kq'), 0, (1 << W) - 1)
         ctx.assume(alg.valid_key(kk))
@@ -104,7 +104,7 @@ def _generic_dictcomp(H, fuc, label, spec_fn, extra_env=None, args=(), facts=Non
         clo = H.closure(interp, fuc, env)
         r = clo(x, *args)
         if not (isinstance(r, CompSeq) and r.kind == 'dict' and isinstance(r.src, ItemsSeq) and r.src.mv is x):
-            ctx.oblige('post: returns {f(k): g(k, v) for k, v in x.items()}', False)
+            raise OutOfSubset('post: returns {f(k): g(k, v) for k, v in x.items()}' + ' -- shape not recognised, contract does not apply')
             return r
         i, j = SInt(z3.Int('i')), SInt(z3.Int('j'))
         ctx.assume(z3.And(i.t >= 0, i.t < x.n.t, j.t >= 0, j.t < x.n.t))
@@ -116,7 +116,7 @@ def _generic_dictcomp(H, fuc, label, spec_fn, extra_env=None, args=(), facts=Non
                 ctx.assume(a)
         skey, sneg = spec_fn(alg, k.t)
         if not isinstance(v2, MathVal):
-            ctx.oblige('post: values are mathstr expressions', False)
+            raise OutOfSubset('post: values are mathstr expressions' + ' -- shape not recognised, contract does not apply')
             return r
         ctx.oblige(f'{label}: output blade', _kt(k2) == skey)
         ctx.oblige(f'{label}: coefficient sign', v2.den == z3.If(sneg, -v.den, v.den))
